@@ -57,15 +57,22 @@ Definition doc_Release : list (string * list string) :=
    ("SHA256", ["sha256"; "size"; "name"]);
    ("SHA512", ["sha512"; "size"; "name"])].
 
+Definition dec_table (t : list (string * list string)) : list (str * list str) :=
+  map (fun kv => (dec (fst kv), map dec (snd kv))) t.
+(* one constant per class, so that the VM decodes each literal table once *)
+Definition doc_table_Dsc := dec_table doc_Dsc.
+Definition doc_table_Changes := dec_table doc_Changes.
+Definition doc_table_BuildInfo := dec_table doc_BuildInfo.
+Definition doc_table_PdiffIndex := dec_table doc_PdiffIndex.
+Definition doc_table_Release := dec_table doc_Release.
 Definition doc_table (c : cls) : list (str * list str) :=
-  map (fun kv => (dec (fst kv), map dec (snd kv)))
-      match c with
-      | Dsc => doc_Dsc
-      | Changes => doc_Changes
-      | BuildInfo => doc_BuildInfo
-      | PdiffIndex => doc_PdiffIndex
-      | Release => doc_Release
-      end.
+  match c with
+  | Dsc => doc_table_Dsc
+  | Changes => doc_table_Changes
+  | BuildInfo => doc_table_BuildInfo
+  | PdiffIndex => doc_table_PdiffIndex
+  | Release => doc_table_Release
+  end.
 Local Close Scope string_scope.
 
 Definition token_ok (t : str) : bool :=
@@ -126,8 +133,24 @@ Definition spec_records (order : list str) (rows : list (list str)) : list recor
 Inductive sval := SRows (rows : list (list str)) | SText (s : str).
 Definition spara := list (str * sval).
 
+(* field names are case-insensitive: looked up in lower case *)
+Definition lower_keys (t : list (str * list str)) : list (str * list str) :=
+  map (fun kv => (ascii_lower (fst kv), snd kv)) t.
+Definition doc_lower_Dsc := lower_keys doc_table_Dsc.
+Definition doc_lower_Changes := lower_keys doc_table_Changes.
+Definition doc_lower_BuildInfo := lower_keys doc_table_BuildInfo.
+Definition doc_lower_PdiffIndex := lower_keys doc_table_PdiffIndex.
+Definition doc_lower_Release := lower_keys doc_table_Release.
+Definition doc_lower (c : cls) : list (str * list str) :=
+  match c with
+  | Dsc => doc_lower_Dsc
+  | Changes => doc_lower_Changes
+  | BuildInfo => doc_lower_BuildInfo
+  | PdiffIndex => doc_lower_PdiffIndex
+  | Release => doc_lower_Release
+  end.
 Definition spec_order (c : cls) (key : str) : option (list str) :=
-  lookup_exact (ascii_lower key) (map (fun kv => (ascii_lower (fst kv), snd kv)) (doc_table c)).
+  lookup_exact (ascii_lower key) (doc_lower c).
 
 Definition spec_entry (c : cls) (b : behav) (kv : str * sval) : str :=
   match snd kv with
